@@ -9,6 +9,8 @@
 package ir
 
 import (
+	"crypto/sha256"
+	"encoding/hex"
 	"go/types"
 	"sort"
 	"strings"
@@ -58,8 +60,16 @@ func (t *Term) Key() string {
 		b.WriteString(")")
 	}
 	t.key = b.String()
+	if len(t.key) > maxKeyLen {
+		// terms are DAGs, their printed form a tree: composing closures over closures makes it exponential. A long
+		// key is replaced by its digest (equality of keys stays equality of terms; the head stays readable)
+		sum := sha256.Sum256([]byte(t.key))
+		t.key = t.key[:120] + "…#" + hex.EncodeToString(sum[:12])
+	}
 	return t.key
 }
+
+const maxKeyLen = 6000
 
 func (t *Term) String() string { return t.Key() }
 
